@@ -976,7 +976,7 @@ def truth_basic(v):
     if isinstance(v, PySet):
         return len(v.items) > 0
     if isinstance(v, SymSeq):
-        return sbool(z3.Length(v.t) > 0)
+        return sbool(v.n > 0)
     if isinstance(v, SymMap):
         if v.size is None:
             raise Unsupported('truthiness of a symbolic dict without a size ghost')
